@@ -394,9 +394,23 @@ func runSchedules(cfg *vlib.Config, r *vlib.Report) {
 		thrSpec{E: en(bDoAcc, cxNone), Out: oAccErr}, thrSpec{E: en(bAllow, cxNone), Out: oBad})
 	add("threshold-boundary-2", "threshold", false, P, 1,
 		thrSpec{E: en(bDo, cxNone), Out: oBad}, thrSpec{E: en(bDoFb, cxNone), Out: oBad, Sleep: 250 * time.Millisecond})
+	// value family under concurrency: requests that forward the breaker's own sentinel (plain, wrapped,
+	// accepted by the caller's predicate), a context error under a live context, a panic carrying the
+	// sentinel, next to genuine rejections of the same breaker: the fallback belongs to the rejected
+	// calls only, admitted ones are recorded by the predicate whatever the value.
+	add("closed-2-values", "closed", false, P+1, 0,
+		thrSpec{E: en(bDoFb, cxNone), Out: oSentinel}, thrSpec{E: en(bDoFbAcc, cxLive), Out: oWrappedAcc})
+	add("throttling-2-values", "throttling", false, P+1, 0,
+		thrSpec{E: en(bDoFb, cxLive), Out: oWrapped}, thrSpec{E: en(bDoFbAcc, cxNone), Out: oSentinelAcc})
+	add("threshold-2-values", "threshold", false, P+1, 0,
+		thrSpec{E: en(bDoFb, cxNone), Out: oPanicSentinel}, thrSpec{E: en(bDoAcc, cxLive), Out: oCtxCanceledAcc})
 	sc = append(sc, registryScenario("named-first-use-2", P+1, oBad, oOK), registryScenario("named-first-use-3", P, oBad, oBad, oPanic))
 	sc = append(sc, noBreakerScenario("nobreaker-vs-first-use-1", P+1, oBad), noBreakerScenario("nobreaker-vs-first-use-2", P, oBad, oOK))
 	if cfg.Thorough() {
+		add("throttling-3-values", "throttling", false, P-1, 0, // three coin-deciding threads: P=3 costs 3.5 min and 9 GB
+			thrSpec{E: en(bDoFb, cxNone), Out: oIsMatch}, thrSpec{E: en(bAllow, cxNone), Out: oSentinel}, thrSpec{E: en(bDoFbAcc, cxLive), Out: oCtxDeadlineAcc})
+		add("stale-2-values", "throttling", true, P+1, 0,
+			thrSpec{E: en(bDoFb, cxNone), Out: oSentinel}, thrSpec{E: en(bDo, cxLive), Out: oTypedNil})
 		add("stale-3", "throttling", true, P, 0,
 			thrSpec{E: en(bDo, cxNone), Out: oBad}, thrSpec{E: en(bDoFb, cxNone), Out: oOK}, thrSpec{E: en(bAllow, cxNone), Out: oBad})
 		add("recovering-3", "recovering", false, P, 0,
@@ -404,7 +418,7 @@ func runSchedules(cfg *vlib.Config, r *vlib.Report) {
 		add("threshold-boundary-3", "threshold", false, P, 1,
 			thrSpec{E: en(bDo, cxNone), Out: oBad}, thrSpec{E: en(bDoFb, cxNone), Out: oBad, Sleep: 250 * time.Millisecond}, thrSpec{E: en(bAllow, cxNone), Out: oBad})
 	}
-	rule := "(A) history engine: explicit-state BFS over histories of calls (S/F through rotating entry points, bursts Sx10/Fx6/Fx60, coin answer drop/pass) and time jumps (1 ns .. 25 s incl. bucket/window boundaries +-1 ns) on the real breaker under a fake clock; a state is distinct by its canonical white-box dump (buckets by age, phase, lastPass age) + reference records, non-trivial when the window holds at least one record; in EVERY state every entry point x outcome x coin answer is probed one step ahead. " +
+	rule := "(A) history engine: explicit-state BFS over histories of calls (S/F through rotating entry points, bursts Sx10/Fx6/Fx60, coin answer drop/pass) and time jumps (1 ns .. 25 s incl. bucket/window boundaries +-1 ns) on the real breaker under a fake clock; a state is distinct by its canonical white-box dump (buckets by age, phase, lastPass age) + reference records, non-trivial when the window holds at least one record; in EVERY state every entry point x outcome kind {ok, unacceptable error, acceptable error, panic} x coin answer is probed one step ahead; in every state of depth <= 3 (thorough 4) additionally the complete VALUE family: the request returns / panics with a value a shortcut could single out (ErrServiceUnavailable itself, wrapped with %w, matched through Is(), same text, context.Canceled / DeadlineExceeded under a live context, a typed nil; each accepted and not accepted by the caller's predicate), the fallback answers {own error, nil, its argument, its argument wrapped}, through all 18 entry points plus the forms 'context cancelled while the request runs' and 'nil fallback' (deeper states: one member per entry point, fixed by the history). " +
 		"(B) schedule engine: every interleaving within the preemption bound of 2-3 concurrent calls on a pre-loaded breaker, distinct by (scenario, verdict vector + coin answers). " +
 		"(C) wrappers: every status code 200-599 / gRPC code / listed error through the rest, zrpc, redis and sqlx wrappers (sqlx: every query form of sqlconn.go x listed error x WithAcceptable on/off x {fake breaker, NewSqlConnFromDB, NewSqlConn}; redis dial hook; NoBreakerFor through every package-level entry point, also raced against concurrent first use in (B)), distinct by (wrapper, input)."
 	vx.Main(cfg, r, sc, vx.Bounds{P: 2, T: 0}, vx.Bounds{P: 3, T: 0}, rule)
